@@ -33,9 +33,9 @@ func (r Result) String() string {
 }
 
 var (
-	gBytes, _  = hex.DecodeString("0279BE667EF9DCBBAC55A06295CE870B07029BFCDB2DCE28D959F2815B16F81798")
-	qBytes, _  = hex.DecodeString("FFFFFFFFFFFFFFFFFFFFFFFFFFFFFFFEBAAEDCE6AF48A03BBFD25E8CD0364141")
-	pBytes, _  = hex.DecodeString("FFFFFFFFFFFFFFFFFFFFFFFFFFFFFFFFFFFFFFFFFFFFFFFFFFFFFFFEFFFFFC2F")
+	gBytes, _    = hex.DecodeString("0279BE667EF9DCBBAC55A06295CE870B07029BFCDB2DCE28D959F2815B16F81798")
+	qBytes, _    = hex.DecodeString("FFFFFFFFFFFFFFFFFFFFFFFFFFFFFFFEBAAEDCE6AF48A03BBFD25E8CD0364141")
+	pBytes, _    = hex.DecodeString("FFFFFFFFFFFFFFFFFFFFFFFFFFFFFFFFFFFFFFFFFFFFFFFFFFFFFFFEFFFFFC2F")
 	twoGBytes, _ = hex.DecodeString("02C6047F9441ED7D6D3045406E95C07CD85C778E4B8CEF3CA7ABAC09B95C709EE5")
 )
 
@@ -395,4 +395,33 @@ func Apply(s *sim.Source, tree interface{}, n Node, op string, bank []BankEntry)
 		return set(opts[s.Draw(len(opts), "hdl")])
 	}
 	return tree, res, false
+}
+
+// PickNode chooses the node an operator is applied to. Nodes are grouped by path class (so that a
+// 600-element array weighs as much as a single field, not 600 times more), and inside a group the
+// first and last elements get half of the probability mass (off-by-one and "position 0" slips live there).
+func PickNode(s *sim.Source, nodes []Node) Node {
+	if len(nodes) == 1 {
+		return nodes[0]
+	}
+	var classes []string
+	groups := map[string][]Node{}
+	for _, n := range nodes {
+		c := n.Path.Class()
+		if _, ok := groups[c]; !ok {
+			classes = append(classes, c)
+		}
+		groups[c] = append(groups[c], n)
+	}
+	g := groups[classes[s.Draw(len(classes), "path-class")]]
+	if len(g) == 1 {
+		return g[0]
+	}
+	if s.Draw(2, "path-edge") == 1 {
+		if s.Draw(2, "path-first-or-last") == 0 {
+			return g[0]
+		}
+		return g[len(g)-1]
+	}
+	return g[s.Draw(len(g), "path")]
 }
